@@ -1006,7 +1006,7 @@ theorem create_good (cfg : NodeConfig) (seed : UInt64) (now : Nat) : Good (Actor
   · simp only
     apply good_of_sock
     apply maintenance_good
-    exact fresh_good _ _ rfl rfl rfl
+    exact good_of_sock _ (fresh_good _ _ rfl rfl rfl) _
 
 /-- **Every reachable state.** Whatever datagrams arrive (lost, duplicated, reordered, delayed, forged),
     whenever the clock advances, whatever API calls are queued and however they overlap: after any
